@@ -2,7 +2,7 @@
 import e2
 
 TIE = ["Nsq.Tie.Chan", "Nsq.Tie.TopicEph"]
-PROPS = ["Nsq.Props.C01", "Nsq.Props.C01Live", "Nsq.Props.C01Topic", "Nsq.Props.C01PumpLedger", "Nsq.Props.C01Eph", "Nsq.Props.C01Snap"]
+PROPS = ["Nsq.Props.C01", "Nsq.Props.C01Live", "Nsq.Props.C01Topic", "Nsq.Props.C01PumpLedger", "Nsq.Props.C01Eph", "Nsq.Props.C01Snap", "Nsq.Props.C01Raw"]
 PROPS = PROPS + ["Nsq.Props.C01DQ"]  # E9 glue (builder dq2): memory queue + go-diskqueue backend: overflow to disk and back keeps the multiset
 
 
